@@ -12,6 +12,7 @@ pub mod c07;
 pub mod c08;
 pub mod c09;
 pub mod c10;
+pub mod c13;
 pub mod c18;
 
 #[derive(Clone, Debug)]
@@ -62,6 +63,7 @@ pub async fn dispatch(prop: &str, ctx: &Ctx, rep: &mut Report) -> bool {
         "C08" => c08::run(ctx, rep).await,
         "C09" => c09::run(ctx, rep).await,
         "C10" => c10::run(ctx, rep).await,
+        "C13" => c13::run(ctx, rep).await,
         "C18" => c18::run(ctx, rep).await,
         _ => return false,
     }
